@@ -87,6 +87,21 @@ PROPS = {
                                                    'header hashing / state roots are compared by the implementation, '
                                                    'not modelled'],
                 level='proof'),
+    'C05': dict(_COMMON, id='C05', tag=5,
+                n={'quick': 120, 'thorough': 3000},
+                theorems=['da_range_exact', 'da_heights', 'da_no_advance', 'imported_once',
+                          'forced_executed_or_reported', 'relayer_disabled'],
+                rule=_RULE + '; flag 32: relayer enabled - a real Database<Relayer> holds 10 consecutive DA heights '
+                     'with 0-3 events each (messages incl. re-delivered nonces and, in 1 case of 10, wrong DA heights; '
+                     'forced transactions: undecodable bytes, a mint, too small claimed max_gas, valid scripts), the '
+                     'parent DA height is 0, 2, u64::MAX-2 or u64::MAX, the block at height 0 is missing in 1 case of '
+                     '12, every block advances the DA height by 0..5',
+                assumptions=_ASSUME + ['SHA-256 / binary Merkle root are the executable Common/Sha256.v, Common/Merkle.v',
+                                       'events are written with EventsHistory inserts + height-checked commits (the '
+                                       'write path of RelayerDb::insert_events, which itself refuses wrong DA heights)',
+                                       'forced-transaction validity (decode, max_gas, into_checked) is an oracle '
+                                       'computed by the harness with the public fuel-tx / fuel-vm API'],
+                level='proof'),
     'C45': dict(_COMMON, id='C45', tag=45,
                 n={'quick': 120, 'thorough': 3000},
                 theorems=['dry_run_function'],
